@@ -171,6 +171,12 @@ inductive Kind2x | adf21 | bmp | bme deriving DecidableEq, Repr
 def Kind2x.norm : Kind2x → Conv
   | .adf21 => .cm3 | .bmp => .id | .bme => .cm3
 
+/-- key of the `normalisation=` argument in the generated literal table -/
+def Kind2x.key : Kind2x → String
+  | .adf21 => "adf21.py:parse_adf21:normalisation1"
+  | .bmp => "adf22.py:parse_adf22bmp:normalisation1"
+  | .bme => "adf22.py:parse_adf22bme:normalisation1"
+
 /-- abstract lines of an ADF21/22 file -/
 inductive K2x (α : Type)
   | head (zt : Nat) (svref spec : α)        -- ZT=.. SVREF=.. SPEC=.. DATE=.. CODE=..
@@ -466,6 +472,10 @@ inductive Class11 | scd | acd | ccd | plt | prb | prc | pls deriving DecidableEq
 
 def Class11.chargeCorrection : Class11 → Int
   | .scd => -1 | .plt => -1 | .pls => -1 | _ => 0
+
+/-- the `filetype` string that the installer of the class passes to `_notation_adf11_adas2cherab` -/
+def Class11.code : Class11 → String
+  | .scd => "scd" | .acd => "acd" | .ccd => "ccd" | .plt => "plt" | .prb => "prb" | .prc => "prc" | .pls => "pls"
 
 structure Rate11 (α : Type) where
   ne : List α           -- PerCm3ToPerM3.to(10 ** ·)
